@@ -1,6 +1,6 @@
 """common.py - shared check runner: compile IR from /repo's current tree, run symbolic jobs in parallel, replay
 counterexamples natively, triage against known_findings.json, write evidence, print verdict lines."""
-import os, sys, json, time, hashlib, traceback, multiprocessing as mp
+import os, re, sys, json, time, hashlib, traceback, multiprocessing as mp
 sys.path.insert(0, os.path.dirname(os.path.dirname(os.path.abspath(__file__))))
 from lsx import driver, models_zlib, engine as E
 
@@ -61,7 +61,7 @@ def _run_job(job):
             setup, on_end = h.get('setup'), h.get('on_end')
         r = driver.run_harness(job['ll'], job['entry'], params=job.get('params'), env_models=models, allow_throw=allow_fn,
                                eng_opts=job.get('eng_opts'), setup=setup, on_end=on_end, max_bugs=job.get('max_bugs', 6),
-                               time_limit=job.get('time_limit', 240 if TIER == 'quick' else 1500))
+                               time_limit=job.get('time_limit', 240 if TIER == 'quick' else 1500), nsamples=job.get('nsamples', 3))
         r.job = {k: v for k, v in job.items() if k not in ('known',)}
         if r.wall > 30: sys.stderr.write('slow job %.0fs: %s %s\n' % (r.wall, job['entry'], job.get('params')))
         # known-finding hits are collected on the engine; pull them through the module-level cache
@@ -118,7 +118,8 @@ class Check:
     def native_for(s, harness):
         if harness not in s.natives:
             spec = s.native_spec.get(harness, {})
-            s.natives[harness] = driver.build_native(harness, extra_src=spec.get('extra_src', ()), libs=spec.get('libs', ('-lz',)))
+            if spec.get('public'): s.natives[harness] = driver.build_native_public(harness)       # public API only: against the library built from /repo's tree + real SQLite
+            else: s.natives[harness] = driver.build_native(harness, extra_src=spec.get('extra_src', ()), libs=spec.get('libs', ('-lz',)))
         return s.natives[harness]
     def add_results(s, rs):
         for r in rs:
@@ -127,6 +128,12 @@ class Check:
                 s.machinery.append('%s%s: %s: %s' % (r.entry, r.params, inc['kind'], inc['msg'][:600]))
             skip = set((r.job or {}).get('other_property_kinds') or ())
             for i, b in enumerate(r.bugs):
+                flt = (r.job or {}).get('assert_filter')
+                if flt and b['kind'] == 'assert' and not re.search(flt, b['msg']):
+                    # an assertion of the shared harness that states another property (e.g. C09's order assertions in a C07 run)
+                    s.extra.setdefault('paths_ended_by_other_property_monitor', {}).setdefault('assert:other-property', 0)
+                    s.extra['paths_ended_by_other_property_monitor']['assert:other-property'] += 1
+                    continue
                 if b['kind'] in skip:
                     # a path ended by a monitor that belongs to another property (e.g. undefined behaviour = C15): not this
                     # property's violation; the path is simply not continued (counted, stated in the evidence)
@@ -152,7 +159,7 @@ class Check:
                 # harnesses over an arbitrary-behaviour stub cannot be replayed verbatim: they name a native confirmation
                 # entry per counterexample class (real libz, real SQLite) instead
                 nentry = (r.job.get('native_entry_for') or {}).get(b['kind'], r.entry)
-                rc, out, err = driver.run_native(exe, nentry, path, r.params)
+                rc, out, err = driver.run_native(exe, nentry, path, {k: v for k, v in r.params.items() if isinstance(v, int)})
                 rep, desc = driver.classify_native(rc, out, err)
             except Exception as e:
                 rep, desc = False, 'native replay failed to build/run: %r' % (e,)
